@@ -806,7 +806,7 @@ func driver(seed uint64, n int, outV, outJSON string, _ []string) {
 				if len(before.Queue) > 0 {
 					theGate.tokens <- struct{}{}
 					<-theGate.atGate
-					deadline := time.Now().Add(5 * time.Second)
+					deadline := time.Now().Add(120 * time.Second)
 					for disk.VerifQueuedBytes(dc) != 0 && time.Now().Before(deadline) {
 						time.Sleep(time.Millisecond)
 					}
